@@ -75,6 +75,7 @@ void dump(Wr& w, InterpreterEnv& env, ScriptError err) {
     w.u32(env.is_p2sh ? 1 : 0);
     w.bytes(env.successor_script.data(), env.successor_script.size());
     w.u32((uint32_t)env.stack_history.size()); w.u32((uint32_t)env.altstack_history.size()); w.u32((uint32_t)env.pc_history.size()); w.u32((uint32_t)env.nOpCount_history.size());
+    w.u32((uint32_t)env.vfExec_history.size()); w.u32((uint32_t)env.pbegincodehash_history.size()); w.u32((uint32_t)env.execdata_history.size());
     if (!env.stack_history.empty()) {
         w.items(env.stack_history.back()); w.items(env.altstack_history.back());
         w.u32((uint32_t)(env.pc_history.back() - env.script.begin())); w.u32((uint32_t)env.nOpCount_history.back());
@@ -136,6 +137,9 @@ __attribute__((noinline)) unsigned w_sess(const unsigned char* in, unsigned char
             env.altstack_history.push_back(r.items());
             env.pc_history.push_back(env.script.begin() + r.u32());
             env.nOpCount_history.push_back((int)r.u32());
+            env.vfExec_history.push_back(ConditionStack());
+            env.pbegincodehash_history.push_back(env.script.begin());
+            env.execdata_history.push_back(env.execdata);
         }
         // mock signature pairs (C11)
         uint32_t nmock = r.u32();
